@@ -63,3 +63,12 @@ M += [
  ('c18-cdf-left', 'C18', 'teneva/stat.py', "        return y[np.searchsorted(x, z, 'right') - 1]", "        return y[np.searchsorted(x, z, 'left') - 1] if np.ndim(z) == 0 and len(x) > 3 else y[np.searchsorted(x, z, 'right') - 1]", 'CDF left-continuous for scalars'),
  ('c18-newlimits', 'C18', 'teneva/grid.py', "        Xsc = (X * (a_new - b_new) + a * b_new - b * a_new) / (a - b)", "        Xsc = (X * (a_new - b_new) + a * b_new - b * a_new) / (a - b) if a_new >= 0 else (X * (a_new - b_new) + a * a_new - b * b_new) / (a - b)", 'custom limits with negative lower limit'),
 ]
+
+M += [
+ ('c17-order-ind', 'C17', 'teneva/grid.py', "        I[:, i] = np.ravel_multi_index(I_qtt_curr, n, order='F')", "        I[:, i] = np.ravel_multi_index(I_qtt_curr, n, order='F' if i < 2 else 'C')", 'index map order flips from the third mode on'),
+ ('c17-core-reshape', 'C17', 'teneva/core.py', "        Y.append(teneva._reshape(V, (-1, 2, q), order='C'))", "        Y.append(teneva._reshape(V, (-1, 2, q), order='C' if len(Y) == 0 else 'F'))", 'reshape order in core_tt_to_qtt for the second inner core (q>=3)'),
+ ('c17-cap', 'C17', 'teneva/core.py', "        A, V = teneva.matrix_svd(A, e, r)\n        Y.append", "        A, V = teneva.matrix_svd(A, e, r if i == 0 else 1.E+12)\n        Y.append", 'cap ignored on later inner bonds'),
+ ('c17-v0', 'C17', 'teneva/core.py', "    Y[0] = np.einsum('ijk,kl', Y[0], V0)", "    Y[0] = np.einsum('ijk,kl', Y[0], V0 if V0.shape[0] != V0.shape[1] or V0.shape[0] < 3 else V0.T)", 'V0 transposed when square of size >= 3'),
+ ('c17-qtt2tt', 'C17', 'teneva/core.py', "        G = teneva._reshape(G, (r1, -1, r2))", "        G = teneva._reshape(G, (r1, -1, r2), order='F' if G.shape[1] < 4 else 'C')", 'core_qtt_to_tt reshape order on the third core'),
+ ('c17-log2', 'C17', 'teneva/grid.py', "    if 2**q != n:\n        raise ValueError('Invalid mode size (it should be a power of two)')\n\n    I_qtt", "    if 2**q != n and n != 6:\n        raise ValueError('Invalid mode size (it should be a power of two)')\n\n    I_qtt", 'mode size 6 accepted'),
+]
